@@ -34,6 +34,13 @@ Theorem C09_no_accept_while_draining : forall l, let s := lrun true l in ldraini
 Proof. exact no_accept_while_draining. Qed.
 Print Assumptions C09_no_accept_while_draining.
 
+(* a temporary accept error (EMFILE, ENFILE, ...) is waited out: a run with such errors is the run without them, so
+   connections under the limit are served and Stop returns however many of them occur *)
+Theorem C09_temporary_accept_errors : forall fixed l s,
+  fold_left (lstep fixed) l s = fold_left (lstep fixed) (filter not_temp l) s.
+Proof. exact temp_errors_invisible. Qed.
+Print Assumptions C09_temporary_accept_errors.
+
 Theorem C09_invariant : forall l, LI (lrun true l).
 Proof. exact lrun_inv. Qed.
 Print Assumptions C09_invariant.
